@@ -131,7 +131,7 @@ var etParVals = []int64{20, 3, 14, 8, 45, 2, 31, 12}
 var etTmpVals = []int64{19, 27, 33, 41, 58, 75, 87, 99} // y0..y7
 var etTmpOps = []string{"/ 2", "% 10", "/ 3", "% 9", "/ 4", "% 13", "/ 5", "% 16"}
 var etCallArgs = [][2]int64{{30, 2}, {18, 3}, {104, 4}, {10, 1}, {85, 5}, {24, 6}, {91, 7}, {64, 8}} // et_d(a, b) = a / b
-const etLoopVal = 5                                                                                     // `for i in 6` … `if i > 4`
+const etLoopVal = 5                                                                                  // `for i in 6` … `if i > 4`
 const etEdgeVal = "9223372036854775807"
 
 const etLeafSlots = 8
@@ -353,9 +353,10 @@ type etExpr struct {
 }
 
 type etProgram struct {
-	ctx   string // "meth": expressions in method bodies; "top": at the top level of the program
-	exprs []*etExpr
-	src   string
+	ctx      string // "meth": expressions in method bodies; "top": at the top level of the program
+	exprs    []*etExpr
+	src      string
+	excluded int // (first program of a context only) trees of the context left out because a divisor is zero
 }
 
 var arithOps = []string{"+", "-", "*", "/", "%"}
@@ -366,9 +367,9 @@ const etGroup = 64 // expressions per method (a multiple of etPrint)
 const etPrint = 8  // expressions per println
 
 type etPlan struct {
-	ctx      string
-	programs int
-	parts    []etPart
+	ctx     string
+	perProg int // target number of expressions per program (the number of programs is a multiple of 16)
+	parts   []etPart
 }
 
 type etPart struct {
@@ -382,33 +383,39 @@ type etPart struct {
 func etPlans(thorough bool) []etPlan {
 	methAll := []etKind{kLit, kBig, kLoc, kPar, kIt, kCall, kTmp}
 	topAll := []etKind{kLit, kBig, kLoc, kIt, kCall, kTmp}
-	rep3 := []etKind{kLit, kLoc, kTmp} // one kind per class narrow / wide / temp
+	rep3 := []etKind{kLit, kLoc, kTmp}      // one kind per class narrow / wide / temp
+	rep4 := []etKind{kLit, kLoc, kIt, kTmp} // … and the narrow local
 	if !thorough {
 		return []etPlan{
-			{ctx: "meth", programs: 16, parts: []etPart{
+			{ctx: "meth", perProg: 3000, parts: []etPart{
 				{nOps: 1, shapes: "all", ops: arithOps, kinds: methAll},
 				{nOps: 2, shapes: "all", ops: arithOps, kinds: methAll},
 				{nOps: 3, shapes: "full+spines", ops: arithOps, kinds: rep3},
 			}},
-			{ctx: "top", programs: 16, parts: []etPart{
+			// the top level of a program is one Go function: small programs
+			{ctx: "top", perProg: 240, parts: []etPart{
 				{nOps: 1, shapes: "all", ops: arithOps, kinds: topAll},
-				{nOps: 2, shapes: "all", ops: arithOps, kinds: []etKind{kLit, kLoc, kIt, kCall, kTmp}},
+				{nOps: 2, shapes: "all", ops: arithOps, kinds: rep4},
+				{nOps: 2, shapes: "all", ops: arithOps, kinds: []etKind{kLit, kCall}},
 			}},
 		}
 	}
 	allOps := append(append([]string{}, arithOps...), bitOps...)
+	withEdge := func(k []etKind) []etKind { return append(append([]etKind{}, k...), kEdge) }
+	mixed := []etKind{kLit, kBig, kLoc, kTmp}
 	return []etPlan{
-		{ctx: "meth", programs: 64, parts: []etPart{
-			{nOps: 1, shapes: "all", ops: allOps, kinds: append(append([]etKind{}, methAll...), kEdge)},
-			{nOps: 1, shapes: "all", ops: cmpOps, kinds: append(append([]etKind{}, methAll...), kEdge)},
-			{nOps: 2, shapes: "all", ops: allOps, kinds: append(append([]etKind{}, methAll...), kEdge)},
-			{nOps: 2, shapes: "all", ops: arithOps, rootOps: cmpOps, kinds: methAll},
-			{nOps: 3, shapes: "all", ops: arithOps, kinds: []etKind{kLit, kLoc, kIt, kTmp}},
+		{ctx: "meth", perProg: 3300, parts: []etPart{
+			{nOps: 1, shapes: "all", ops: allOps, kinds: withEdge(methAll)},
+			{nOps: 1, shapes: "all", ops: cmpOps, kinds: withEdge(methAll)},
+			{nOps: 2, shapes: "all", ops: arithOps, kinds: withEdge(methAll)},
+			{nOps: 2, shapes: "all", ops: allOps, kinds: mixed},
+			{nOps: 2, shapes: "all", ops: arithOps, rootOps: cmpOps, kinds: mixed},
+			{nOps: 3, shapes: "all", ops: arithOps, kinds: rep3},
+			{nOps: 3, shapes: "full+spines", ops: arithOps, kinds: rep4},
 		}},
-		{ctx: "top", programs: 32, parts: []etPart{
-			{nOps: 1, shapes: "all", ops: allOps, kinds: append(append([]etKind{}, topAll...), kEdge)},
+		{ctx: "top", perProg: 240, parts: []etPart{
+			{nOps: 1, shapes: "all", ops: allOps, kinds: withEdge(topAll)},
 			{nOps: 2, shapes: "all", ops: arithOps, kinds: topAll},
-			{nOps: 3, shapes: "full+spines", ops: arithOps, kinds: rep3},
 		}},
 	}
 }
@@ -419,11 +426,7 @@ func etBuild(thorough bool) []*etProgram {
 	etExcluded = map[string]int{}
 	var out []*etProgram
 	for _, pl := range etPlans(thorough) {
-		progs := make([]*etProgram, pl.programs)
-		for i := range progs {
-			progs[i] = &etProgram{ctx: pl.ctx}
-		}
-		n := 0
+		var all []*etExpr
 		seen := map[string]bool{}
 		for _, pt := range pl.parts {
 			var shapes []*etNode
@@ -433,10 +436,6 @@ func etBuild(thorough bool) []*etProgram {
 				}
 			}
 			etEnumerate(shapes, pt.ops, pt.rootOps, pt.kinds, func(t *etNode) {
-				if _, ok := t.eval(); !ok {
-					etExcluded[pl.ctx]++
-					return
-				}
 				var sb strings.Builder
 				t.render(&sb, pl.ctx == "top")
 				src := sb.String()
@@ -444,14 +443,28 @@ func etBuild(thorough bool) []*etProgram {
 					return
 				}
 				seen[src] = true
-				p := progs[n%len(progs)]
-				p.exprs = append(p.exprs, &etExpr{idx: len(p.exprs), tree: t, src: src})
-				n++
+				if _, ok := t.eval(); !ok {
+					etExcluded[pl.ctx]++
+					return
+				}
+				all = append(all, &etExpr{tree: t, src: src})
 			})
+		}
+		n := (len(all) + pl.perProg - 1) / pl.perProg
+		n = (n + 15) / 16 * 16
+		progs := make([]*etProgram, n)
+		for i := range progs {
+			progs[i] = &etProgram{ctx: pl.ctx}
+		}
+		for i, e := range all { // round-robin: every program gets a similar mix of shapes
+			p := progs[i%n]
+			e.idx = len(p.exprs)
+			p.exprs = append(p.exprs, e)
 		}
 		for _, p := range progs {
 			p.src = etSource(p)
 		}
+		progs[0].excluded = etExcluded[pl.ctx]
 		out = append(out, progs...)
 	}
 	return out
@@ -770,6 +783,9 @@ func (n *etNode) classShape() string {
 func checkExprProgram(r *engine.R, rc *rec, p *etProgram) {
 	vmr, nat := rc.f.VM, rc.nat
 	r.Count("expr_trees_in_programs", len(p.exprs))
+	if p.excluded > 0 {
+		r.Count("expr_trees_left_out(zero divisor)", p.excluded)
+	}
 	generic := func(why string) {
 		checkItem(r, rc)
 		r.Capped(fmt.Sprintf("packed expression program %s (%d expressions) not compared expression by expression: %s", rc.it.Tag, len(p.exprs), why))
@@ -877,10 +893,49 @@ func etMinimalProgram(p *etProgram, e *etExpr) string {
 	return etSource(q)
 }
 
+// etParseClassShape: the inverse of classShape, with a representative leaf kind per class (the loop variable for
+// narrow, so that the rebuilt tree is not taken for a folded constant).
+func etParseClassShape(s string) (t *etNode, ok bool) {
+	rep := []etKind{kIt, kEdge, kBig, kLoc, kTmp}
+	pos := 0
+	var parse func() *etNode
+	parse = func() *etNode {
+		if pos < len(s) && s[pos] == '(' {
+			pos++
+			l := parse()
+			if l == nil || pos+3 > len(s) || s[pos] != ' ' {
+				return nil
+			}
+			e := strings.IndexByte(s[pos+1:], ' ')
+			if e < 0 {
+				return nil
+			}
+			op := s[pos+1 : pos+1+e]
+			pos += e + 2
+			r := parse()
+			if r == nil || pos >= len(s) || s[pos] != ')' {
+				return nil
+			}
+			pos++
+			return &etNode{op: op, l: l, r: r}
+		}
+		for _, k := range rep {
+			if c := etLeafClass(k); strings.HasPrefix(s[pos:], c) {
+				pos += len(c)
+				return &etNode{kind: k}
+			}
+		}
+		return nil
+	}
+	t = parse()
+	return t, t != nil && pos == len(s)
+}
+
 // etFinish (parent side): every program localises its own differing expressions, so one cause can surface under a
 // coarse pattern in one program and under refinements of it (the same pattern plus the parent operator or the sibling
 // class) in others: a finding whose pattern refines the pattern of another finding of the run is folded into that one.
-// The unlocalised findings name the smallest differing tree of each program: only the smallest of them all is kept.
+// The unlocalised findings name the smallest differing tree of each program: those whose tree carries a pattern
+// reported by another program are folded into that pattern, and of the rest only the smallest is kept.
 func etFinish(a *engine.Agg) {
 	pairs := func(sig string) map[string]bool {
 		m := map[string]bool{}
@@ -891,21 +946,13 @@ func etFinish(a *engine.Agg) {
 	}
 	var pats []string
 	seen := map[string]bool{}
-	best := ""
 	for _, v := range a.Viol {
-		switch {
-		case strings.HasPrefix(v.Sig, etUnlocalPrefix):
-			if best == "" || len(v.Sig) < len(best) || (len(v.Sig) == len(best) && v.Sig < best) {
-				best = v.Sig
-			}
-		case strings.HasPrefix(v.Sig, etSigPrefix) && !seen[v.Sig]:
+		if strings.HasPrefix(v.Sig, etSigPrefix) && !seen[v.Sig] {
 			seen[v.Sig] = true
 			pats = append(pats, v.Sig)
 		}
 	}
-	if best == "" && len(pats) == 0 {
-		return
-	}
+	sort.Strings(pats)
 	foldInto := map[string]string{}
 	for _, fine := range pats {
 		fp := pairs(fine)
@@ -920,19 +967,39 @@ func etFinish(a *engine.Agg) {
 					sub = false
 				}
 			}
-			if sub && (foldInto[fine] == "" || len(cp) < len(pairs(foldInto[fine])) || (len(cp) == len(pairs(foldInto[fine])) && coarse < foldInto[fine])) {
+			if sub && (foldInto[fine] == "" || len(cp) < len(pairs(foldInto[fine]))) {
 				foldInto[fine] = coarse
 			}
+		}
+	}
+	// unlocalised findings: explained by a reported pattern, or candidates for the one that is kept
+	best := ""
+	for _, v := range a.Viol {
+		if !strings.HasPrefix(v.Sig, etUnlocalPrefix) || foldInto[v.Sig] != "" {
+			continue
+		}
+		if t, ok := etParseClassShape(strings.TrimPrefix(v.Sig, etUnlocalPrefix)); ok {
+			for _, f := range etFeatures(t) {
+				if to := etSigPrefix + f.text; seen[to] && (foldInto[v.Sig] == "" || to < foldInto[v.Sig]) {
+					foldInto[v.Sig] = to
+				}
+			}
+		}
+		if foldInto[v.Sig] == "" && (best == "" || len(v.Sig) < len(best) || (len(v.Sig) == len(best) && v.Sig < best)) {
+			best = v.Sig
 		}
 	}
 	var out []engine.Violation
 	folded := map[string]int{}
 	for _, v := range a.Viol {
-		if strings.HasPrefix(v.Sig, etUnlocalPrefix) && v.Sig != best {
-			folded[best]++
-			continue
+		to := foldInto[v.Sig]
+		for foldInto[to] != "" {
+			to = foldInto[to]
 		}
-		if to := foldInto[v.Sig]; to != "" {
+		if to == "" && strings.HasPrefix(v.Sig, etUnlocalPrefix) && v.Sig != best {
+			to = best
+		}
+		if to != "" {
 			folded[to]++
 			continue
 		}
@@ -945,7 +1012,7 @@ func etFinish(a *engine.Agg) {
 	}
 	sort.Strings(keys)
 	for _, k := range keys {
-		a.Notes = append(a.Notes, fmt.Sprintf("%d expr-tree findings of other programs (refinements of the same pattern) folded into %q", folded[k], k))
+		a.Notes = append(a.Notes, fmt.Sprintf("%d expr-tree findings of other programs (refinements of the pattern, or smallest trees that carry it / are larger) folded into %q", folded[k], k))
 	}
 }
 
